@@ -26,6 +26,7 @@ type zzKV struct{ k, v []byte }
 
 type zzOp struct {
 	cf       *rocksdb.ColumnFamilyHandle
+	point    bool // a point delete: no range tombstone
 	del      bool
 	k, v, to []byte
 }
@@ -41,6 +42,10 @@ var (
 	zzIters  map[*rocksdb.Iterator]*zzIter
 	zzSlices map[*rocksdb.Slice][]byte
 	zzOpenIt int
+	// entries removed by a range deletion stay physically present until compaction: a reader
+	// that sets ignore_range_deletions sees them (RocksDB ReadOptions documentation)
+	zzTomb     map[*rocksdb.ColumnFamilyHandle][]zzKV
+	zzROIgnore map[*rocksdb.ReadOptions]bool
 )
 
 func zzRocksReset() {
@@ -49,7 +54,12 @@ func zzRocksReset() {
 	zzIters = map[*rocksdb.Iterator]*zzIter{}
 	zzSlices = map[*rocksdb.Slice][]byte{}
 	zzOpenIt = 0
+	zzTomb = map[*rocksdb.ColumnFamilyHandle][]zzKV{}
+	zzROIgnore = map[*rocksdb.ReadOptions]bool{}
 }
+
+func zzROSetIgnoreRangeDeletions(ro *rocksdb.ReadOptions, v bool) { zzROIgnore[ro] = v }
+func zzRODestroy(ro *rocksdb.ReadOptions)                         {}
 
 func zzCFPut(cf *rocksdb.ColumnFamilyHandle, k, v []byte) {
 	l := zzCFs[cf]
@@ -58,6 +68,15 @@ func zzCFPut(cf *rocksdb.ColumnFamilyHandle, k, v []byte) {
 		i++
 	}
 	kc, vc := append([]byte{}, k...), append([]byte{}, v...)
+	if t := zzTomb[cf]; len(t) > 0 {
+		var keep []zzKV
+		for _, e := range t {
+			if !bytes.Equal(e.k, k) {
+				keep = append(keep, e)
+			}
+		}
+		zzTomb[cf] = keep
+	}
 	if i < len(l) && bytes.Equal(l[i].k, k) {
 		l[i].v = vc
 	} else {
@@ -69,13 +88,16 @@ func zzCFPut(cf *rocksdb.ColumnFamilyHandle, k, v []byte) {
 }
 
 // RocksDB's DeleteRange removes the keys in [begin, end); an end that does not come after begin removes nothing.
-func zzCFDeleteRange(cf *rocksdb.ColumnFamilyHandle, begin, end []byte) {
+func zzCFDeleteRange(cf *rocksdb.ColumnFamilyHandle, begin, end []byte, point bool) {
 	if bytes.Compare(begin, end) >= 0 {
 		return
 	}
 	var out []zzKV
 	for _, e := range zzCFs[cf] {
 		if bytes.Compare(e.k, begin) >= 0 && bytes.Compare(e.k, end) < 0 {
+			if !point {
+				zzTomb[cf] = append(zzTomb[cf], e)
+			}
 			continue
 		}
 		out = append(out, e)
@@ -113,7 +135,7 @@ func zzWBDeleteRangeCF(wb *rocksdb.WriteBatch, cf *rocksdb.ColumnFamilyHandle, b
 
 func zzWBDeleteCF(wb *rocksdb.WriteBatch, cf *rocksdb.ColumnFamilyHandle, key []byte) {
 	// a point delete is the range [key, key+"\x00")
-	zzBatch[wb] = append(zzBatch[wb], zzOp{cf: cf, del: true, k: append([]byte{}, key...), to: append(append([]byte{}, key...), 0)})
+	zzBatch[wb] = append(zzBatch[wb], zzOp{cf: cf, del: true, point: true, k: append([]byte{}, key...), to: append(append([]byte{}, key...), 0)})
 }
 
 func zzWrite(db *rocksdb.DB, wo *rocksdb.WriteOptions, wb *rocksdb.WriteBatch) error {
@@ -124,7 +146,7 @@ func zzWrite(db *rocksdb.DB, wo *rocksdb.WriteOptions, wb *rocksdb.WriteBatch) e
 	}
 	for _, op := range zzBatch[wb] {
 		if op.del {
-			zzCFDeleteRange(op.cf, op.k, op.to)
+			zzCFDeleteRange(op.cf, op.k, op.to, op.point)
 		} else {
 			zzCFPut(op.cf, op.k, op.v)
 		}
@@ -137,6 +159,18 @@ func zzNewIteratorCF(db *rocksdb.DB, ro *rocksdb.ReadOptions, cf *rocksdb.Column
 	st := &zzIter{pos: -1}
 	for _, e := range zzCFs[cf] {
 		st.keys = append(st.keys, e.k)
+	}
+	if zzROIgnore[ro] {
+		// range-deleted entries not yet compacted away are visible to this reader
+		for _, e := range zzTomb[cf] {
+			i := 0
+			for i < len(st.keys) && bytes.Compare(st.keys[i], e.k) < 0 {
+				i++
+			}
+			st.keys = append(st.keys, nil)
+			copy(st.keys[i+1:], st.keys[i:])
+			st.keys[i] = e.k
+		}
 	}
 	zzIters[it] = st
 	zzOpenIt++
@@ -155,10 +189,10 @@ func zzItKey(it *rocksdb.Iterator) *rocksdb.Slice {
 	zzSlices[s] = st.keys[st.pos]
 	return s
 }
-func zzItClose(it *rocksdb.Iterator)             { zzOpenIt-- }
-func zzSliceData(s *rocksdb.Slice) []byte        { return zzSlices[s] }
-func zzSliceSize(s *rocksdb.Slice) int           { return len(zzSlices[s]) }
-func zzSliceFree(s *rocksdb.Slice)               {}
+func zzItClose(it *rocksdb.Iterator)                { zzOpenIt-- }
+func zzSliceData(s *rocksdb.Slice) []byte           { return zzSlices[s] }
+func zzSliceSize(s *rocksdb.Slice) int              { return len(zzSlices[s]) }
+func zzSliceFree(s *rocksdb.Slice)                  {}
 func zzNewDefaultReadOptions() *rocksdb.ReadOptions { return &rocksdb.ReadOptions{} }
 
 // codec contract for raft.Log (redirect targets of encodeRaftLog / decodeRaftLog)
